@@ -4,6 +4,14 @@ import json, sys
 
 ENGINE = "gsx"
 CHECKS = {
+ "C16": dict(
+   text="Kernel of the property: the real handleOpenSecureChannelResponse, scheduleRenewal and scheduleExpiration are executed symbolically with the revised and the requested lifetime as free uint32 variables; the durations handed to the timers are checked against lifetime/2 <= renew < lifetime and lifetime <= expiry <= 1.25*lifetime.",
+   note="Kernel only: schedules of concurrent requests around a renewal are outside the claim. Bounds: every lifetime >= 1 ms. Found and fixed (9c26e30): whole-second truncation for short lifetimes. Trusted: go/ssa, gsx, cvc5; native replay observes the renewal request / instance removal in real time.",
+   ref="DESIGN.md §5 C16"),
+ "C17": dict(
+   text="One inductive step: arbitrary (symbolic) channel id and token ids, two tokens; the real scheduleExpiration runs with its timer firing; real Receive before and after on chunks produced by the real send path under each token. After the step the old token's chunk must be rejected and the new token must still work.",
+   note="Bounds: two tokens, Sign and SignAndEncrypt, Basic256Sha256. Ideal MAC and collision-resistant key derivation assumed. Found and fixed (2a091de): instance map indexed by the wrong id. Trusted: go/ssa, gsx, cvc5.",
+   ref="DESIGN.md §5 C17"),
  "C38": dict(
    text="The real SetMaximumBodySize and signAndEncrypt (with the policy constructors and key derivation they call) are executed symbolically with the chunk size a free variable over [8192, 2^31-1] and the chunk a symbolic-length byte sequence; the fit, block-alignment, MessageSize and plus-one-does-not-fit assertions are SMT queries (cvc5) decided for every chunk size at once.",
    note="Bounds: all chunk sizes in [8192, 2^31-1], five symmetric policies x {Sign, SignAndEncrypt} and None. HMAC/AES idealised (lengths only matter). Outside: chunk sizes >= 2^31. Trusted: go/ssa, gsx, cvc5.",
